@@ -659,7 +659,9 @@ class Interp:
                     return UNKNOWN
                 if fn.attr in ("strip", "lstrip", "rstrip", "lower",
                                "upper"):
-                    return recv if not e.args else UNKNOWN
+                    # stripping characters changes no token structure that
+                    # the readers of these shapes look at
+                    return recv
         # helper of the same class / module: interpret it
         callee = self._helper(e)
         if callee is not None and self.depth < MAX_DEPTH:
